@@ -103,7 +103,7 @@ Proof. exact C11_add_transactional_lemma. Qed.
 Definition q (x : Q) : Qc := Q2Qc x.
 Definition fl (i : nat) (p : Q) (t : option Q) (v : option Q) (te : Q) : file :=
   mkfile i true 2 3 [1%Q; 1%Q] [1%Q; 0%Q; 0%Q; 0%Q; 1%Q; 0%Q] (q p) (option_map q t) (option_map q v)
-         [([69; 99; 104; 111; 84; 105; 109; 101]%N, q te)] None None.
+         [([69; 99; 104; 111; 84; 105; 109; 101]%N, q te)] None None 1 12 false.
 
 (** 2 slices x 2 time points, explicit time order, added in scrambled order *)
 Definition ex_grid : state :=
@@ -167,9 +167,9 @@ Example C11_uneven_positions_ex :
   In (q 0) (map f_pos (files ex_upos)) /\ In (q 1) (map f_pos (files ex_upos)) /\
   occ_pos (q 0) (files ex_upos) = 3 /\ occ_pos (q 1) (files ex_upos) = 1.
 Proof.
-  repeat split; try apply ex_reach; try (vm_compute; reflexivity).
-  - left. vm_compute. reflexivity.
-  - right. left. vm_compute. reflexivity.
+  split; [apply ex_reach|]. split; [vm_compute; reflexivity|]. split; [vm_compute; reflexivity|].
+  split; [vm_compute; left; reflexivity|]. split; [vm_compute; right; left; reflexivity|].
+  split; vm_compute; reflexivity.
 Qed.
 
 Example C11_uneven_vectors_ex :
@@ -179,9 +179,9 @@ Example C11_uneven_vectors_ex :
   occ_vec true (Some (q 1)) (files ex_uvec) = 6 /\ occ_vec true (Some (q 2)) (files ex_uvec) = 2 /\
   snd (get_shape ex_uvec) = Err EInvalidStack.
 Proof.
-  repeat split; try apply ex_reach; try (vm_compute; reflexivity).
-  - left. vm_compute. reflexivity.
-  - do 6 right. left. vm_compute. reflexivity.
+  split; [apply ex_reach|]. split; [vm_compute; reflexivity|]. split; [vm_compute; reflexivity|].
+  split; [vm_compute; left; reflexivity|]. split; [vm_compute; do 6 right; left; reflexivity|].
+  split; [vm_compute; reflexivity|]. split; vm_compute; reflexivity.
 Qed.
 
 Example C11_accept_ex :
@@ -194,8 +194,8 @@ Qed.
 
 Example C11_add_ex :
   add_dcm ex_grid (fl 9 0 (Some 1%Q) None 10) = Err ECollision /\
-  add_dcm ex_grid (mkfile 9 false 2 3 [] [] (q 0) None None [] None None) = Err ENonImage /\
-  add_dcm ex_grid (mkfile 9 true 2 4 [1%Q; 1%Q] [1%Q; 0%Q; 0%Q; 0%Q; 1%Q; 0%Q] (q 5) (Some (q 7)) None [] None None) = Err EIncongruent /\
-  add_dcm ex_grid (mkfile 9 true 2 3 [1%Q; (10001 # 10000)%Q] [1%Q; 0%Q; 0%Q; 0%Q; 1%Q; 0%Q] (q 5) (Some (q 7)) None [] None None) = Err EIncongruent /\
-  is_ok (add_dcm ex_grid (mkfile 9 true 2 3 [1%Q; (100001 # 100000)%Q] [1%Q; 0%Q; 0%Q; 0%Q; 1%Q; 0%Q] (q 5) (Some (q 7)) None [] None None)) = true.
+  add_dcm ex_grid (mkfile 9 false 2 3 [] [] (q 0) None None [] None None 1 12 false) = Err ENonImage /\
+  add_dcm ex_grid (mkfile 9 true 2 4 [1%Q; 1%Q] [1%Q; 0%Q; 0%Q; 0%Q; 1%Q; 0%Q] (q 5) (Some (q 7)) None [] None None 1 12 false) = Err EIncongruent /\
+  add_dcm ex_grid (mkfile 9 true 2 3 [1%Q; (10001 # 10000)%Q] [1%Q; 0%Q; 0%Q; 0%Q; 1%Q; 0%Q] (q 5) (Some (q 7)) None [] None None 1 12 false) = Err EIncongruent /\
+  is_ok (add_dcm ex_grid (mkfile 9 true 2 3 [1%Q; (100001 # 100000)%Q] [1%Q; 0%Q; 0%Q; 0%Q; 1%Q; 0%Q] (q 5) (Some (q 7)) None [] None None 1 12 false)) = true.
 Proof. repeat split; vm_compute; reflexivity. Qed.
